@@ -48,6 +48,10 @@ CLAIMS = {
    text="MC_Codec.tla (TLC) establishes the encode/decode laws of the specification's own codec over bounded universes (all signed values of <=1-2 octets, length forms, truncation, OID prefix/order lemmas). The library's INTEGER encoder/decoder is run over every value of 1..2 (thorough 1..3) content octets, neighbourhoods of every +-2^(8k-1)/+-2^(8k) and random i64; OID text->octets->TLV->text over the grammar corpus; whole v1/v2c/v3 request messages are encoded and decoded back by the library; arbitrary i64 also reach the wire through the public API (max_repetitions). TraceCodec.tla / TraceSession.tla judge every record: encoding = the minimal X.690 form computed by the specification, decode(encode(x)) = x, nothing left over.",
    note="Batched validation (4000 records per event). Messages that do not fit the buffer are outside C15 (see C17).",
    ref="DESIGN.md 5 C15", technique="TLC-checked codec laws + batched TLC trace validation of the library's encoders/decoders"),
+ "C17": dict(
+   text="Buffer.tla is model-checked by TLC (InBounds, NoUnwrittenExposed, FailChangesNothing, BookmarkLemma) over all operation sequences on a small buffer. At the real capacity (measured from the library) the transitions of the model's graph over the boundary argument set x {push, push_tag_len, skip(+fill), reset, MAC placeholder} are replayed on a REAL Buffer (shortest path + transition) and TraceBuffer.tla judges result, len()/free() and the exact run-length-encoded contents of data() after every step. Through the public API request sizes are swept across the 127/128, 255/256 and capacity boundaries at each nesting level on v1/v2c/v3 (plain/auth/DES/AES): TraceSession.tla requires that a refused request put nothing on the wire and really does not fit (size arithmetic of SNMP.tla), that every sent request decodes to exactly the call, and that the session still emits correct requests afterwards.",
+   note="An out-of-bounds access without functional symptom (result, lengths, contents unchanged) is not observable by this technique (DESIGN.md 6). Quick tier replays ~1800 sampled transitions; thorough all ~450k.",
+   ref="DESIGN.md 5 C17", technique="TLC model checking of Buffer.tla + one implementation test per transition on the real Buffer + TLC trace validation of a request-size sweep"),
  "C19": dict(
    text="TLC checks delay<=D, slot invariants and the k-window bound on Policer.tla for all phase offsets x gaps (several D); Apalache discharges the inductive invariant for symbolic D and unbounded times; the real RPSPolicer is driven through every transition of the exported graph (get_timeout, wait_sync, wait under a virtual clock) and through random call sequences, and every observed run is judged by TracePolicer.tla at property level.",
    note="Assumes sequential calls on a monotonic clock (the property's hypothesis) and that sleep() sleeps at least what is asked. Window bound for all k follows arithmetically from the inductive invariant.",
